@@ -24,7 +24,9 @@ struct Ctx {
   int pk[2] = {0, 0};          // parameter matcher kind: 0 any 1 eq 2 ne 3 lt 4 le 5 gt 6 ge
   long pv[2] = {0, 0};
   std::vector<CondSpec> conds;
-  std::vector<int> fx;         // 0 log, 1 throws std, 2 throws other
+  std::vector<int> fx;         // 0 log, 1 throws std, 2 throws other, 3 re-entrant: calls another mock function
+  struct Nest { int o; int f; long a0; long a1; };
+  std::vector<Nest> nest;      // parallel to fx (used when fx[i] == 3)
   RetSpec ret{0, 0};
   size_t lo = 1, hi = 1;
   trompeloeil::sequence* seq[2] = {nullptr, nullptr};
